@@ -108,6 +108,9 @@ def step (st : State) (args : List String) : State × String :=
     | none => (st, "bad-op")
     | some s =>
       if op == "mon" || op == "burst" || op == "doneall" || op == "settle" || op == "stall" then (st, "mon")
+      else if op == "sleep" then
+        -- real time passes and the request timeout may fire: the model has no timer; from here on only the monitors speak
+        (st.set id { s with undefined := true }, "mon")
       else if op == "stallcut" || op == "racega" then
         -- the peer stops reading, goes on sending and disconnects: judged by the monitors; the connection is over
         (st.set id { s with returned := true, rlStopped := true, slStopped := true }, "mon")
